@@ -133,7 +133,15 @@ def r1_chunk_loop(P, rep, ctx):
     tr = [x for x in walk_local(fi.node) if isinstance(x, ast.Try)]
     ok = bool(tr) and any(norm(h.type) == "KeyError" and any(isinstance(b, ast.Raise) and "ValueError" in norm(b) for b in h.body) for t in tr for h in t.handlers) and "_hash_alg[alg]()" in norm(fi.node)
     rep.check(ok, "C19.R1", fi.qual, "unknown algorithm raises ValueError", fi.loc(), construct="algorithm lookup", message="hashsum does not raise ValueError for an unknown algorithm")
-    rep.check("isinstance(data, bytes)" in norm(fi.node) and "BytesIO(data)" in norm(fi.node), "C19.R1", fi.qual, "bytes input is hashed through the same loop", fi.loc(), construct="bytes input", message="bytes input is not wrapped in BytesIO")
+    def _bytes_test(e) -> bool:
+        """isinstance(<data>, bytes) or isinstance(<data>, (bytes, <other bytes-like types>))"""
+        m_ = MM.match("isinstance(__d, __t)", e)
+        if m_ is None or norm(m_["__d"]) != fi.params[0]:
+            return False
+        ts = [norm(t_) for t_ in (m_["__t"].elts if isinstance(m_["__t"], ast.Tuple) else [m_["__t"]])]
+        return "bytes" in ts and set(ts) <= {"bytes", "bytearray", "memoryview"}
+
+    rep.check(any(_bytes_test(x) for x in ast.walk(fi.node) if isinstance(x, ast.Call)) and "BytesIO(data)" in norm(fi.node), "C19.R1", fi.qual, "bytes input is hashed through the same loop", fi.loc(), construct="bytes input", message="bytes input is not wrapped in BytesIO")
     q = P.func(f"{H}.qualified_hashsum")
     qf = F(ctx, q)
     rets = [qf.x(v) for _, v in qf.returns() if v is not None]
@@ -332,7 +340,7 @@ def r4_structure(P, rep, ctx):
     hsfi = P.func(f"{H}.hashsum")
     hsf = F(ctx, hsfi)
     hdp = hsfi.params[0]
-    isb = hsf.tests(f"isinstance({hdp}, bytes)")
+    isb = hsf.tests(f"isinstance({hdp}, bytes)", f"isinstance({hdp}, (bytes, bytearray, memoryview))", f"isinstance({hdp}, (bytes, bytearray))", f"isinstance({hdp}, (bytes, memoryview))")
     wraps = [i for i, v, b in hsf.stores("__s") if norm(v) == f"BytesIO({hdp})"]
     bt = bool(isb) and bool(wraps) and hsf.all_hit_before(wraps, edges=isb)
     if not bt:
